@@ -1,11 +1,101 @@
 import Oracle.Util
+import Wz.Model.Lifetime
 namespace Oracle.C09
-open Oracle
+open Oracle Wz.Model.Lifetime
 
-/-- Topic state (stub: no model behind this topic yet). -/
-abbrev St := Unit
-def init : St := ()
+/-- Topic state: one world per history id. -/
+abbrev St := List (Nat × W)
+def init : St := []
 
-def step (st : St) (_args : List String) : St × String := (st, "bad-op")
+def colon (s : String) : String × Option Nat :=
+  match s.splitOn ":" with
+  | [a, b] => (a, parseNat b)
+  | _ => (s, none)
+
+def parseOp : List String → Option Op
+  | ["inst", i, imp, tab] => do
+    let i ← parseNat i
+    let imp ← if imp == "-" then some none else (parseNat imp).map some
+    let tab ← match colon tab with
+      | ("priv", none) => some TabMode.priv
+      | ("exp", none) => some TabMode.exp
+      | ("imp", some k) => some (TabMode.imp k)
+      | _ => none
+    pure (.inst i imp tab)
+  | ["pass", s, how, d, wh] => do
+    let s ← parseNat s
+    let d ← parseNat d
+    let how ← match colon how with
+      | ("own", none) => some How.own
+      | ("imp", none) => some How.imp
+      | ("slot", some n) => some (How.slot n)
+      | ("glob", none) => some How.glob
+      | _ => none
+    let wh ← match colon wh with
+      | ("tab", some n) => some (Where.tab n)
+      | ("glob", none) => some Where.glob
+      | _ => none
+    pure (.pass s how d wh)
+  | ["call", j, via, x] => do
+    let j ← parseNat j
+    let x ← parseNat x
+    let via ← match colon via with
+      | ("tab", some n) => some (Via.tab n)
+      | ("imp", none) => some Via.imp
+      | ("host", none) => some Via.host
+      | _ => none
+    pure (.call j via x)
+  | ["close", i] => (parseNat i).map .close
+  | ["closecm", i] => (parseNat i).map .closecm
+  | ["closert"] => some .closert
+  | ["closecache"] => some .closecache
+  | ["drop", i] => (parseNat i).map .drop
+  | ["droprt"] => some .droprt
+  | ["gc"] => some .gc
+  | _ => none
+
+/-- strong reachability (perm ∪ reg) between the modelled objects of the instances, for the comparison
+with the reflection walk over the real heap: `i>j` instance to instance, `i>cm` instance to its own
+compiled module. Only instances that are still live are listed. -/
+def reachMat (w : W) : String :=
+  let E := w.g.perm ++ w.g.reg
+  let liveI := w.insts.filter (fun r => w.g.live.contains r.inst)
+  let cells := liveI.flatMap (fun a =>
+    let rs := reachSet E [a.inst]
+    (liveI.filter (fun b => b.idx != a.idx)).map (fun b => s!"{a.idx}>{b.idx}:{b2s (rs.contains b.inst)}") ++
+      [s!"{a.idx}>cm:{b2s (rs.contains a.cm)}"])
+  if cells.isEmpty then "-" else " ".intercalate cells
+
+def step (st : St) (args : List String) : St × String :=
+  match args with
+  | ["reset", id, kind, cache, pin] =>
+    match parseNat id, parseBool cache, parseBool pin with
+    | some id, some c, some p =>
+      let k := if kind == "interpreter" then EngineKind.interpreter else EngineKind.compiler
+      (assocSet st id (W.init k c p), "ok")
+    | _, _, _ => (st, "bad-op")
+  | "op" :: id :: rest =>
+    match parseNat id, parseOp rest with
+    | some id, some op =>
+      match assocGet st id with
+      | none => (st, "bad-op")
+      | some w =>
+        let d := disciplined w op
+        let okp := stepOk w op
+        let (w', a) := stepW w op
+        (assocSet st id w', s!"{a.toString} shadow={b2s w'.g.shadowOk} disc={b2s d} primsok={b2s okp}")
+    | _, _ => (st, "bad-op")
+  | ["reach", id] =>
+    match parseNat id with
+    | some id =>
+      match assocGet st id with
+      | none => (st, "bad-op")
+      | some w => (st, reachMat w)
+    | none => (st, "bad-op")
+  | ["drop", id] =>
+    match parseNat id with
+    | some id => (st.filter (·.1 != id), "ok")
+    | none => (st, "bad-op")
+  | _ => (st, "bad-op")
 
 end Oracle.C09
